@@ -4,6 +4,7 @@
    observed by the harness (goroutine dump at quiescence). *)
 From FMP Require Import Base.Bytes Base.Lts Model.Events Model.Skeleton Model.Props Model.Receiver Model.Writer
      Proofs.ReceiverProofs Proofs.WriterProofs Proofs.SkeletonProofs.
+From FMP Require Import Model.CodecCfg Proofs.CodecCfgProofs.
 From FMP Require Import Model.Paths Proofs.PathProofs.
 From FMP Require Import Proofs.ReceiverQuiesce.
 Open Scope Z_scope.
@@ -62,6 +63,10 @@ Theorem C11_late_handler_can_exit : forall ls st h st1,
                 (forall x, hfind h (handlers st2) = Some x -> hd_pc x = HGone).
 Proof. exact recv_late_handler_can_exit. Qed.
 
+(* the task loop releases its table when it stops (regenerated order census of receiver.go) *)
+Theorem C11_task_loop_cancels_its_table_on_stop : cdf_taskloop_cancels codecfacts_now = true.
+Proof. exact codec_taskloop_cancels. Qed.
+
 Print Assumptions C11_serving_side_never_stuck.
 Print Assumptions C11_sending_side_never_stuck.
 Print Assumptions C11_generated_ok.
@@ -70,3 +75,4 @@ Print Assumptions C11_call_paths_unregister.
 Print Assumptions C11_can_quiesce_after_stop.
 Print Assumptions C11_quiet_is_final.
 Print Assumptions C11_late_handler_can_exit.
+Print Assumptions C11_task_loop_cancels_its_table_on_stop.
